@@ -50,8 +50,12 @@ static inline void h_prepare_attr(myth_thread_attr_t * a, int v) {
   } else {
     myth_thread_attr_init(a);
   }
+  /* what the getters report is what creation will use */
+  { int ds = -1; size_t s0 = 0; int rc = myth_thread_attr_getdetachstate(a, &ds); MV_CHECK(rc == 0 && ds == 0, "a freshly initialised attribute object reports detach state %d (rc %d), expected joinable (0)", ds, rc);
+    rc = myth_thread_attr_getstacksize(a, &s0); MV_CHECK(rc == 0 && s0 >= 4096, "a freshly initialised attribute object reports stack size %zu (rc %d)", s0, rc); }
   size_t ss = v_stack(v);
-  if (ss) myth_thread_attr_setstacksize(a, ss);
+  if (ss) { int rc = myth_thread_attr_setstacksize(a, ss); size_t s1 = 0; int r2 = myth_thread_attr_getstacksize(a, &s1);
+    MV_CHECK(rc == 0 && r2 == 0 && s1 == ss, "setstacksize(%zu) returned %d, getstacksize then reports %zu (rc %d)", ss, rc, s1, r2); }
 }
 
 static inline int h_spawn(int v, myth_thread_t * id, myth_func_t f, void * arg) {
